@@ -847,7 +847,7 @@ func buildEvidence(prop, tier string, seed int, p regProp, runs []*jobRun, valid
 		"solver_s": round2(solverS), "functions_encoded": fl, "jobs": jobs, "assertion_labels": labels, "reach_witnesses": reached,
 		"paths_aborted_outside_claim": aborted, "stubs_hit": stubsHit, "stubs": p.Stubs, "outside_claim": p.OutsideClaim,
 		"known_findings_hit": nKF, "messages": lines,
-		"second_solver": map[string]any{"assertion_queries_rechecked": secChecked, "agreed": secAgreed, "no_second_opinion": secNone, "policy": "a seeded sample of assertion queries per job is re-decided by a different solver (cvc5 <-> z3 5.1); a disagreement is INFRA, a timeout is 'no second opinion'"},
+		"second_solver": map[string]any{"queries_rechecked": secChecked, "agreed": secAgreed, "no_second_opinion": secNone, "policy": "per job a sample of queries (half assertion queries, half from a reservoir of feasibility queries) is re-decided by a different solver (cvc5 <-> z3 5.1) with a per-query and a per-job time cap; a disagreement is INFRA, a timeout is 'no second opinion'"},
 	}
 	return map[string]any{"property_id": prop, "tier": tier, "seed": seed, "level": "model_checking", "coverage": cov,
 		"assumptions": p.Assumptions, "wall_s": round2(wall), "violations": nViol}
